@@ -1,4 +1,5 @@
 import Restic.Model.AssocSet
+import Restic.Gen.Source
 /-!
 # C48 — Blob sets report each member once
 
@@ -22,6 +23,14 @@ master index grows while the set is in use:
 namespace Restic.Props.C48
 open Restic.Model.IndexMap (ID Val firstPos)
 open Restic.Model.Index Restic.Model.AssocSet
+
+/-- T1 (regenerated from associated_data.go): `All` iterates `firstValues` of the main index (the
+    fixed iteration transcribed as `ASet.all`), not every entry of every index (`Values`), and
+    `Len` counts what `All` yields -/
+theorem all_iterates_firstValues :
+    "a.idx.firstValues" ∈ Restic.Gen.AssociatedSet_All_calls
+    ∧ "a.idx.Values" ∉ Restic.Gen.AssociatedSet_All_calls
+    ∧ Restic.Gen.AssociatedSet_Len_calls = ["a.All"] := by decide
 
 /-! ### `firstIndex` (abstract level, see C56) -/
 
